@@ -824,16 +824,23 @@ def range_test_is_nan_safe(ctx):
             ops = [x for sub in ast.walk(t.ast) if isinstance(sub, ast.Compare) for x in compare_ops(sub)]
             lower = any(op in ('<', '<=') and (r == p or r == 'result') for l, op, r in ops)
             upper = any(op in ('<', '<=') and (l == p or l == 'result') for l, op, r in ops)
-            negated = isinstance(t.ast, ast.UnaryOp) or (isinstance(t.ast, ast.BoolOp) and isinstance(t.ast.op, ast.Or))
-            if lower and upper and not negated:
-                acc.append(t.id)
+            # compare_ops() normalises `not (lo <= v <= hi)` to the rejecting form, so look at the raw comparison for the polarity
+            tt, neg = t.ast, False
+            while isinstance(tt, ast.UnaryOp) and isinstance(tt.op, ast.Not):
+                tt, neg = tt.operand, not neg
+            raw = [x for sub in ast.walk(tt) if isinstance(sub, ast.Compare) for x in compare_ops(sub)]
+            lower = any(op in ('<', '<=') and (r == p or r == 'result') for l, op, r in raw)
+            upper = any(op in ('<', '<=') and (l == p or l == 'result') for l, op, r in raw)
+            disj = isinstance(tt, ast.BoolOp) and isinstance(tt.op, ast.Or)
+            if lower and upper and not disj:
+                acc.append((t.id, 'F' if neg else 'T'))
         for r in rets:
             ok = False
-            for t in acc:
-                on_t = cfg.reach([t], labels={'T'}, avoid=[t])
-                on_f = cfg.reach([t], labels={'F'}, avoid=[t])
+            for t, lab in acc:
+                on_acc = cfg.reach([t], labels={lab}, avoid=[t])
+                on_rej = cfg.reach([t], labels={'F' if lab == 'T' else 'T'}, avoid=[t])
                 ids = set(cfg.ids(r))
-                if ids & on_t and not (ids & on_f):
+                if ids & on_acc and not (ids & on_rej):
                     ok = True
             ctx.check(ok, f'{f.qualname}:value returned only on the accepting branch', r,
                       'the return is reachable only through the true branch of `lo <= value <= hi`',
